@@ -531,7 +531,7 @@ def run(ctx):
     sessions = [SS.gen_session(ctx.rng, ctx.quick, P) for _ in range(nsess)]
     souts = [SS.run_session(s) for s in sessions]
     sstats = dict(sessions=nsess, steps=0, fits=0, refits_of_one_object=0, cut_array_reused_after_scaled_use=0,
-                  rejected_calls=0, sessions_with_cell=0, sessions_with_distinct_fit_results=0, not_exact=0,
+                  rejected_calls=0, sessions_with_cell=0, fits_under_a_cell_set_by_set_params=0, sessions_with_distinct_fit_results=0, not_exact=0,
                   ops={}, oracle_runs=0)
     s_texts, s_direct = {}, {}
     for k, (s, o) in enumerate(zip(sessions, souts)):
@@ -542,7 +542,8 @@ def run(ctx):
         sstats["cut_array_reused_after_scaled_use"] += f[2]
         sstats["rejected_calls"] += f[3]
         sstats["sessions_with_distinct_fit_results"] += f[4] > 1
-        sstats["sessions_with_cell"] += s["cell"] is not None
+        sstats["sessions_with_cell"] += len(s["cells"]) > 0
+        sstats["fits_under_a_cell_set_by_set_params"] += f[5]
         for op in s["ops"]:
             sstats["ops"][op["op"]] = sstats["ops"].get(op["op"], 0) + 1
         try:
